@@ -26,6 +26,10 @@ def mc_build(prop, tier, wd, seed):
         raise core.ToolError("specification-level check failed: MC_Build violates %s (the model, not the code, is "
                              "inconsistent)\n%s" % (r.violated, r.out[-2000:]))
     core.require_coverage(r, MC_ACTIONS, "Build")
+    # every build ends in done or err: the work-list search, the flag loop and the J stack machine all terminate
+    lc = dict(consts, EMAX=2) if tier == "quick" else dict(consts, V=2)
+    core.liveness("MC_Build", "FairSpec", lc, "Termination", "mc_build_live", wd,
+                  overrides={"Skeletons": "MCSkeletons", "Decorate": "MCDecorate"})
     return r, consts
 
 
